@@ -4,7 +4,7 @@ import json
 from common import *  # noqa
 
 
-def render_replay(rep, pvh, module, cfgs, timeout=3000, accept=None, simulate=None, depth=None):
+def render_replay(rep, pvh, module, cfgs, timeout=3000, accept=None, simulate=None, depth=None, isolated=False):
     """TLC enumerates the programs of each config and predicts output + events; the harness renders them for real."""
     total = 0
     for cfg in cfgs:
@@ -15,7 +15,7 @@ def render_replay(rep, pvh, module, cfgs, timeout=3000, accept=None, simulate=No
         rep.add_tlc(cfg, res)
         if not lines:
             raise MachineryError(cfg + " produced no vectors")
-        r = run_harness(pvh, ["render-replay"], stdin_text="\n".join(lines) + "\n", timeout=timeout)
+        r = run_harness(pvh, ["render-isolated"] if isolated else ["render-replay"], stdin_text="\n".join(lines) + "\n", timeout=timeout)
         for v in r["violations"]:
             if accept is None or accept(v):
                 rep.violation(v["key"], v["detail"])
